@@ -12,6 +12,8 @@ def run(tier, seed):
              'domains must be identical to the earlier ones, and every assigned literal must be a consequence of the clauses and '
              'the standing decisions (so that root level leaves only root consequences); distinct_nontrivial = distinct '
              'executions with at least two pop/next steps',
+        models=[('MC_DiffLogicImpl', 'MC_DiffLogicImpl_quick.cfg', 'MC_DiffLogicImpl.cfg',
+                 'implementation-shaped model of idl_theory (incremental update, predecessors, enforcing constraints, first-write-wins undo layers): DistExact, ConflictIffNegCycle, ExplanationsValid, PopRestores* over all assert / negate / push / pop histories', None)],
         assumptions=['at most 11 propositional variables and 6 theory atoms per execution',
                      'arithmetic values (as opposed to bounds) are not required to be restored'])
 
